@@ -40,6 +40,27 @@ REN = {
 }
 
 
+import re
+# where a change rewrote one of the lines above, the same renamings as patterns (generated-token contexts only; checked afterwards by the suite and the demonstration)
+RX = {
+ "derive-ex/src/item_type/compare_op.rs": [
+  (r"\bto_index\b", "__to_index"), (r"\|this: &Self\|", "|__this: &Self|"), (r"match this \{", "match __this {"),
+  (r"(?<![\w.])(eq|cmp|partial_cmp)\(this, other\)", "__by(__this, __other)"), (r"\(this, other\) =>", "(__this, __other) =>"),
+  (r"\bthis: &#ty\b", "__this: &#ty"), (r"\bother: &#ty\b", "__other: &#ty"), (r"\b(eq|cmp|partial_cmp|hash): impl ::core::ops::Fn", "__by: impl ::core::ops::Fn"),
+  (r"\bstate: &mut __H", "__state: &mut __H"), (r"(?<![\w.])hash\(this, state\)", "__by(__this, __state)"), (r", state,", ", __state,"), (r", state\)", ", __state)"),
+  (r"\bother: &Self\b", "__other: &Self"), (r"match \(self, other\)", "match (self, __other)"), (r"\bo => return o\b", "__o => return __o"),
+  (r"\(this\.#member\)", "(__this.#member)"), (r"\(other\.#member\)", "(__other.#member)"), (r"::core::ptr::eq\(self, other\)", "::core::ptr::eq(self, __other)")],
+ "derive-ex/src/item_type.rs": [
+  (r"quote!\(rhs\)", "quote!(__rhs)"), (r"\brhs: #rhs_ty", "__rhs: #rhs_ty"), (r"quote!\(source\)", "quote!(__source)"), (r"\bsource: &Self", "__source: &Self"),
+  (r"match \(self, source\)", "match (self, __source)"), (r"\(lhs, rhs\) => \*lhs = (.*)\(rhs\)", r"(__lhs, __rhs) => *__lhs = \1(__rhs)"),
+  (r"\bf: &mut ::core::fmt::Formatter", "__f: &mut ::core::fmt::Formatter"), (r"fmt\(#e, f\)", "fmt(#e, __f)"), (r"quote!\(f\.", "quote!(__f."),
+  (r"(?<![\w.#])f\.(write_str|pad|debug_struct|debug_tuple|#debug_x)\b", r"__f.\1"), (r"Formatter::(\w+)\(f, ", r"Formatter::\1(__f, "), (r"\*self = <Self as ::core::clone::Clone>::clone\(source\)", "*self = <Self as ::core::clone::Clone>::clone(__source)"),
+  (r"::clone\(source\)", "::clone(__source)")],
+ "derive-ex/src/item_impl.rs": [
+  (r"quote!\(rhs\)", "quote!(__rhs)"), (r"\brhs: #(impl_rhs|rhs)\b", r"__rhs: #\1"), (r"(#l_expr|&mut self), rhs\)", r"\1, __rhs)")],
+}
+
+
 def sh(cmd, cwd=None):
     r = subprocess.run(cmd, shell=True, cwd=cwd, env=ENV, stdout=subprocess.PIPE, stderr=subprocess.STDOUT, text=True)
     return r.returncode, r.stdout
@@ -58,6 +79,8 @@ def main():
             sh("git reset -q --hard %s && git clean -fdq derive-ex derive-ex-tests" % base, cwd=wt)
             rc, out = sh("git apply %s" % os.path.join(d, "patch.diff"), cwd=wt)
             if rc != 0:
+                rc, out = sh("patch -p1 --fuzz=3 --no-backup-if-mismatch < %s && find . -name '*.orig' -delete" % os.path.join(d, "patch.diff"), cwd=wt)
+            if rc != 0:
                 print("%-70s does not apply at base" % n, flush=True)
                 continue
             missing = []
@@ -69,6 +92,8 @@ def main():
                         s = s.replace(a, b)
                     elif b not in s:
                         missing.append(a[:40])
+                for rx, to in RX.get(f, []):
+                    s = re.sub(rx, to, s)
                 open(p, "w").write(s)
             rc, out = sh("cargo test --workspace --no-fail-fast --offline 2>&1 | grep -E '^test result|^error' ", cwd=wt)
             passed = sum(int(l.split()[3]) for l in out.splitlines() if l.startswith("test result"))
